@@ -86,7 +86,7 @@ func idsOf(f *ir.Func, includeExit bool) string {
 
 func slotsText(ts []slotTok) string {
 	var sb strings.Builder
-	sb.WriteString("declare void @vf()\n\ndeclare i32 @if()\n\ndefine void @f(")
+	sb.WriteString("%vsig = type void ()\n\ndeclare void @vf()\n\ndeclare i32 @if()\n\ndefine void @f(")
 	first := true
 	k := 0
 	nm := func() string { k++; return fmt.Sprintf("v%d", k) }
@@ -165,6 +165,17 @@ func slotsText(ts []slotTok) string {
 			sb.WriteString("\tinvoke void () @vf()\n\t\tto label %exit unwind label %exit\n")
 		case "CF":
 			sb.WriteString("\tcall void () @vf()\n")
+		// void call sites that must take no number: callbr (plain, with the full function type, through a named signature), call / invoke through a named signature
+		case "CBV":
+			sb.WriteString("\tcallbr void @vf()\n\t\tto label %exit []\n")
+		case "CBVF":
+			sb.WriteString("\tcallbr void () @vf()\n\t\tto label %exit []\n")
+		case "CBVA":
+			sb.WriteString("\tcallbr %vsig @vf()\n\t\tto label %exit []\n")
+		case "CA":
+			sb.WriteString("\tcall %vsig @vf()\n")
+		case "IVA":
+			sb.WriteString("\tinvoke %vsig @vf()\n\t\tto label %exit unwind label %exit\n")
 		}
 	}
 	sb.WriteString("exit:\n")
@@ -254,10 +265,12 @@ func buildSlotsAPI(ts []slotTok) *ir.Func {
 		case "CB":
 			i := cur.NewCallBr(ifn, nil, exit)
 			setIdent(t, &i.LocalIdent)
-		case "IV", "IVF":
+		case "IV", "IVF", "IVA":
 			cur.NewInvoke(vf, nil, exit, exit)
-		case "CF":
+		case "CF", "CA":
 			cur.NewCall(vf)
+		case "CBV", "CBVF", "CBVA":
+			cur.NewCallBr(vf, nil, exit)
 		}
 	}
 	exit.Parent = f
